@@ -15,6 +15,7 @@ import (
 	"os"
 	"os/exec"
 	"path/filepath"
+	"strings"
 	"sync"
 	"syscall"
 	"time"
@@ -55,6 +56,18 @@ type Binary struct {
 // StartBinary runs seq-db with --addr/--proxy-grpc-addr/--debug-addr on free loopback ports plus
 // the given flags and waits until the HTTP port answers.
 func StartBinary(flags ...string) (*Binary, error) {
+	// the ports are found by listening and closing: another test process may take one in between;
+	// only that failure is retried
+	for attempt := 0; ; attempt++ {
+		b, err := startBinaryOnce(flags...)
+		if err == nil || attempt >= 5 || b == nil || !strings.Contains(b.Tail(), "address already in use") {
+			return b, err
+		}
+		b.Kill()
+	}
+}
+
+func startBinaryOnce(flags ...string) (*Binary, error) {
 	b := &Binary{done: make(chan struct{})}
 	var err error
 	if b.HTTPAddr, err = FreeAddr(); err != nil {
@@ -85,7 +98,12 @@ func StartBinary(flags ...string) (*Binary, error) {
 			c.Close()
 			if g, err := net.DialTimeout("tcp", b.GRPCAddr, 200*time.Millisecond); err == nil {
 				g.Close()
-				return b, nil
+				// the listener may belong to another process that took the port: ours is then about to exit
+				time.Sleep(30 * time.Millisecond)
+				if b.Alive() {
+					return b, nil
+				}
+				continue
 			}
 		}
 		if time.Now().After(deadline) {
